@@ -37,7 +37,10 @@ CONSTANTS
   MaxW,      \* max elements of a list / tuple
   MaxK,      \* max entries of a dict
   MaxB,      \* max items of a batch result
-  ErrKinds   \* error shapes of a FAILED batch item: subset of {"full", "empty"}
+  ErrKinds,  \* error shapes of a FAILED batch item: subset of {"full", "empty"}
+  FixKeys    \* TRUE  = ContainerCodec.encode as repaired (caa84cb): a dict with ANY non-string key raises SerDesError
+             \* FALSE = pinned original: int/bool/None/float keys pass and json.dumps writes their text (silent coercion)
+             \* (the value used by the check comes from spec/variant.json "CodecFixKeys")
 
 VARIABLES
   v,   \* the value under test (one TLC state per value of the grammar)
@@ -60,7 +63,8 @@ LeafV(kind) == IF kind = "str" THEN StrV("u") ELSE IF kind = "tagstr" THEN StrV(
 
 KeyOrder == <<"1", "a", "t", "v", "#int", "#bool", "#none", "#float", "#tuple", "#bytes">>
 StrKeys    == {"1", "a", "t", "v"}
-CoercedKeys == {"#int", "#bool", "#none", "#float"}     \* json.dumps writes their text form
+CoercedKeys == {"#int", "#bool", "#none", "#float"}     \* json.dumps would write their text form
+NonStrKeys  == CoercedKeys \cup {"#tuple", "#bytes"}
 Pos(key) == CHOOSE i \in 1..Len(KeyOrder) : KeyOrder[i] = key
 
 SeqsUpTo(S, n) == UNION {[1..m -> S] : m \in 0..n}
@@ -160,6 +164,7 @@ Enc(x) ==
                            IN IF HasReject(cs) THEN RejectW ELSE Envelope("t", JArr(cs))
     [] x.k = "dict"     ->
          IF "#tuple" \in DictKeys(x) THEN RejectW                     \* SerDesError("Tuple keys not supported")
+         ELSE IF FixKeys /\ DictKeys(x) \cap NonStrKeys # {} THEN RejectW   \* SerDesError("Only string keys are supported")
          ELSE LET cs == [i \in 1..Len(x.e) |-> Enc(x.e[i].val)]
               IN IF HasReject(cs) THEN RejectW
                  ELSE IF "#bytes" \in DictKeys(x) THEN RejectW        \* json.dumps: TypeError (keys must be str, int, ...)
@@ -287,16 +292,19 @@ Decode(text) ==
 (* Specification-level predicates (what the property says, independent of Encode) *)
 
 \* values the serializer is allowed (and expected) to refuse: unsupported leaf, tuple key,
-\* key of a type json cannot write - anywhere inside
+\* key of a type json cannot write - anywhere inside; with the repair every non-string key
+RejectedKeys == IF FixKeys THEN NonStrKeys ELSE {"#tuple", "#bytes"}
 RECURSIVE Rejects(_)
 Rejects(x) == \/ x.k = "unsupported"
-              \/ x.k = "dict" /\ DictKeys(x) \cap {"#tuple", "#bytes"} # {}
+              \/ x.k = "dict" /\ DictKeys(x) \cap RejectedKeys # {}
               \/ LET ch == Children(x) IN \E i \in 1..Len(ch) : Rejects(ch[i])
 
-\* KNOWN DEFECT escape: a dict with an int/bool/None/float key anywhere inside
-RECURSIVE KnownNonStrKey(_)
-KnownNonStrKey(x) == \/ x.k = "dict" /\ DictKeys(x) \cap CoercedKeys # {}
-                     \/ LET ch == Children(x) IN \E i \in 1..Len(ch) : KnownNonStrKey(ch[i])
+\* KNOWN DEFECT escape of the PINNED ORIGINAL only: a dict with an int/bool/None/float key anywhere inside.
+\* With FixKeys = TRUE it is FALSE for every value: all invariants hold without any escape.
+RECURSIVE HasCoercedKey(_)
+HasCoercedKey(x) == \/ x.k = "dict" /\ DictKeys(x) \cap CoercedKeys # {}
+                    \/ LET ch == Children(x) IN \E i \in 1..Len(ch) : HasCoercedKey(ch[i])
+KnownNonStrKey(x) == ~FixKeys /\ HasCoercedKey(x)
 
 \* what the known defect does and nothing else: every coercible key replaced by its JSON text, a key that
 \* collides keeps the first position and the last value (spec-level; uses only JsonKey and Dedupe)
